@@ -20,7 +20,9 @@ BASE_OPS = [
 def header_grid(profile, tier, seed):
     knobs = profile.draw_knobs(random.Random(seed))
     knobs["walk_every"] = 0
-    cells = [(v, i, f) for v in GRID_VERSIONS for i in GRID_IDS for f in GRID_FORMATS]
+    # complete for the two basic format tags; the other (near-miss) tags with three representative versions
+    cells = [(v, i, f) for v in GRID_VERSIONS for i in GRID_IDS for f in GRID_FORMATS[:2]] + \
+            [(v, i, f) for v in ([1, 2, 1], [1, 1, 0], [2, 0, 0]) for i in GRID_IDS for f in GRID_FORMATS[2:]]
     violations = []
     n = 0
     distinct = set()
